@@ -226,6 +226,14 @@ func (c *SpecCtx) eval(x ast.Expr) SV {
 		xv := c.eval(n.X)
 		iv := c.intArg(n.Index)
 		if sv, ok := xv.V.(*SliceV); ok {
+			// an element of a literal (e.g. variadic) slice built on this path keeps its identity (closures, bound methods)
+			if tab := e.litElems[sv.At]; tab != nil {
+				if k, err := strconv.ParseInt(iv.S, 10, 64); err == nil {
+					if v, ok := tab[k]; ok {
+						return SV{V: v, T: sv.ElemT}
+					}
+				}
+			}
 			return SV{V: sv.at(iv), T: sv.ElemT}
 		}
 		// map index: m[k]
@@ -811,7 +819,8 @@ func (c *SpecCtx) call(n *ast.CallExpr) SV {
 			}
 		}
 		if cl == nil {
-			return c.bad("captured: not a closure created in this function")
+			// not a closure made on this path (e.g. a nil function value on this branch): an arbitrary value; clauses guard it
+			return SV{V: T{"nocapture", "AnyLit"}}
 		}
 		name := exprString(n.Args[1])
 		for i, fv := range cl.Fn.FreeVars {
@@ -947,6 +956,20 @@ func (c *SpecCtx) call(n *ast.CallExpr) SV {
 			return c.bad("boundrecv: not a bound method value")
 		}
 		return SV{V: bm.Recv}
+	case "closurename":
+		// closurename(f): name of the function literal a closure value was made from ("F$1"), or "<not a closure>"
+		v := c.eval(n.Args[0])
+		var cl *Closure
+		switch x := v.V.(type) {
+		case *Closure:
+			cl = x
+		case T:
+			cl = e.closures[x.S]
+		}
+		if cl == nil {
+			return SV{V: e.strConst("<not a closure>")}
+		}
+		return SV{V: e.strConst(e.fnName[cl.Fn])}
 	case "boundname":
 		v := c.eval(n.Args[0])
 		var bm *BoundMethod
